@@ -177,6 +177,23 @@ def cgmatrix_cases(ctx, rnd, n):
         rank = int(np.linalg.matrix_rank(m.reshape(len(ls), -1), tol=1e-9)) if len(ls) else 0
         meta = {"t": t, "P": P, "brk": brk, "ls": ls, "rank": rank}
         cases.append(("cgm%d" % k, "forallb (cgm_ok (1 # 1000000000000)) [%s] = true" % "; ".join(items), "vm_compute; reflexivity", meta))
+        # the SYMBOLIC variant (out_sym=True, used for the LS <-> helicity equations) against the same exact radicals, small spins
+        # (sympy CG is slow); negative half-integer helicities were rounded towards zero before /repo d26894e
+        if max(t) <= 3 and len(items) <= 40:
+            try:
+                import sympy
+                ms = d.get_cg_matrix(out_sym=True)
+                sitems = []
+                for i, (l, s2) in enumerate(ls):
+                    for ib, lb in enumerate(hb):
+                        for ic, lc in enumerate(hc):
+                            sitems.append("(%d,%d,%d,%d,%d,%d,%d,%s)" % (t[0], t[1], t[2], l, s2, lb, lc, Qq(float(sympy.N(ms[i][ib][ic], 30)))))
+                ctx.evaluations += len(sitems)
+                ctx.count("cgmatrix_symbolic")
+                cases.append(("cgs%d" % k, "forallb (cgm_ok (1 # 1000000000000)) [%s] = true" % "; ".join(sitems), "vm_compute; reflexivity", dict(meta, variant="out_sym=True")))
+            except Exception as ex:
+                ctx.fail("cg_matrix", "cgs%d" % k, "get_cg_matrix(out_sym=True) raised %r" % (ex,), inp=meta, site="HelicityDecay.get_cg_matrix(out_sym=True)", fingerprint="out_sym:raise",
+                         failing_input=dict(meta, raised=repr(ex)))
         if rank != len(ls):
             ctx.fail("ls_rank", "rank%d" % k, "LS->helicity matrix of the implementation is rank deficient", inp=meta, site="HelicityDecay.get_cg_matrix", fingerprint="rank",
                      failing_input={"decay": "J^P = %s^%d -> %s^%d %s^%d, p_break=%s" % (J(t[0]), P[0], J(t[1]), P[1], J(t[2]), P[2], brk), "ls": ls, "rank": rank, "n_ls": len(ls)})
